@@ -5,7 +5,7 @@ import exprk
 def run(ctx):
     ctx.prove("C01")
     q = ctx.tier == "quick"
-    exprk.run_k(ctx, "C01", 350 if q else 12000, 30 if q else 400,
+    exprk.run_k(ctx, "C01", 200 if q else 12000, 20 if q else 400,
                 kinds=["elem", "elem", "elem", "binary", "binary", "binary", "clause"], tag="c01")
     ctx.cov["rule"] = ("scripts of 1-4 statements, each ONE dataset-level operator (dataset∘dataset, dataset∘scalar, unary, parameterised) or a clause "
                        "chain with component expressions of depth ≤ 3 over 2-3 input datasets (1-2 identifiers, 1-3 measures of Integer/Number/"
